@@ -649,3 +649,77 @@ def prof_sched(rng, n, tier):
     return out
 
 PROFILES["sched"] = prof_sched
+
+
+def prof_keyfuncs(rng, n, tier):
+    """C14: layers of keys of every built-in kind at many branch factors, and the default key order"""
+    out = []
+    for i in range(n):
+        kind = rng.choice([0, 1, 2, 3, 4])
+        h = H("kf%d" % i, rng, kind=kind, cache="none", vt="int")
+        kg = KeyGen(rng, kind, h.bf, span=60)
+        keys = [kg.probe() for _ in range(12)]
+        if kind == 0:
+            keys += ["i:%d" % v for v in (0, -1, 2 ** 63 - 1, -2 ** 63 + 1, rng.randint(-2 ** 62, 2 ** 62), 16 ** rng.randint(1, 15), -(3 ** rng.randint(1, 39)))]
+        if kind == 1:
+            keys += ["u:%d" % v for v in (0, 2 ** 64 - 1, 2 ** 63, rng.randint(0, 2 ** 64 - 1), 2 ** rng.randint(1, 63), 7 ** rng.randint(1, 22))]
+        for k in keys:
+            for bf in (2, 3, 4, 16, rng.choice([5, 7, 10, 17, 100, 255, 256, 1000])):
+                h.ops.append("layer %s %d" % (k, bf))
+        for _ in range(25):
+            h.ops.append("cmp %s %s" % (rng.choice(keys), rng.choice(keys)))
+        out.append(h)
+    return out
+
+PROFILES["keyfuncs"] = prof_keyfuncs
+
+def prof_race(rng, n, tier):
+    """C11: goroutines that each own trees derived from common persisted roots, one store, one cache"""
+    out = []
+    for i in range(n):
+        h = H("rac%d" % i, rng, cache=rng.choice(["big", "tiny", "big", "none"]), kind=rng.choice([0, 0, 1, 2, 5]), vt=rng.choice(["int", "raw"]), bfs=[2, 3, 4, 16])
+        t0 = h.new()
+        build_tree(h, t0, rng.choice([5, 20, 60, 150]))
+        r0 = h.mkroot(t0)
+        mutate(h, t0, rng.randint(1, 10))
+        r1 = h.mkroot(t0)
+        nthreads = rng.randint(2, 6)
+        starts = []
+        for th in range(1, nthreads + 1):
+            # each goroutine gets its own tree: a clone made during setup, or a root it loads itself
+            if rng.random() < 0.5:
+                h.nt = 100 * th
+                starts.append(("clone", h.clone(t0)))
+            else:
+                starts.append(("load", rng.choice([r0, r1])))
+        for th, (how, x) in enumerate(starts, start=1):
+            h.nt = 100 * th + 10; h.nr = 100 * th; h.nc = 100 * th
+            mark = len(h.ops)
+            t = x if how == "clone" else h.load(x)
+            for _ in range(rng.randint(5, 25 if tier == "quick" else 60)):
+                c = rng.random()
+                if c < 0.45:
+                    h.ins(t)
+                elif c < 0.6:
+                    h.dele(t)
+                elif c < 0.7:
+                    h.get(t)
+                elif c < 0.78:
+                    h.ops.append("iter %d" % t)
+                elif c < 0.86:
+                    r = h.mkroot(t)
+                    if rng.random() < 0.4:
+                        t = h.load(r)
+                elif c < 0.9:
+                    t = h.clone(t)
+                elif c < 0.95:
+                    h.ops.append("diff %d %d" % (t, t0)) if False else h.ops.append("seek %d %s" % (t, h.kg.probe()))
+                else:
+                    cu = h.cursor(t); h.ops += ["cmin %d" % cu, "cfwd %d" % cu, "cget %d" % cu]
+            h.observe(t)
+            h.ops[mark:] = ["@%d %s" % (th, o) for o in h.ops[mark:]]
+        h.opts["threads"] = nthreads
+        out.append(h)
+    return out
+
+PROFILES["race"] = prof_race
